@@ -9,5 +9,6 @@ repo = core.get_repo()
 assert not getattr(repo, "renames", None), "the tree already differs from the reference by renames: regenerate from a clean tree"
 snap = canon.snapshot(repo)
 snap["__types__"] = canon.snapshot_types(repo)
+snap["__aliases__"] = sorted({a["name"] for a in repo.aliases.values()})
 json.dump(snap, open(canon.TABLE, "w"), indent=0, sort_keys=True)
 print(len(repo.fns), "functions recorded in", canon.TABLE)
